@@ -501,3 +501,115 @@ func TestC14FailedPeer(t *testing.T) {
 			rep.Floor("paths", int64(len(paths)), rep.Nontrivial)
 		})
 }
+
+// TestC14FilterSets: destinations are resolved through the subscription index, whose answer for one topic must not depend
+// on what else is stored next to a filter. Every set of three and of four filters out of a pool of eight that share
+// levels and wildcards, spread over three nodes; one QoS 1 publish of a/b on node 1: appended exactly once on each node
+// that hosts a matching filter, nowhere else, acknowledged, and received once per matching subscription.
+func TestC14FilterSets(t *testing.T) {
+	pool := []string{"a/b", "+/b", "+/+", "+/b/b", "a/+", "#", "a/#", "b/+"}
+	type fs struct {
+		Filters []string `json:"filters_on_nodes_1_2_3_in_turn"`
+	}
+	var paths []fs
+	var rec func(start int, cur []string)
+	rec = func(start int, cur []string) {
+		if len(cur) == 3 || len(cur) == 4 {
+			paths = append(paths, fs{append([]string{}, cur...)})
+		}
+		if len(cur) == 4 {
+			return
+		}
+		for k := start; k < len(pool); k++ {
+			rec(k+1, append(cur, pool[k]))
+		}
+	}
+	rec(0, nil)
+	RunPaths(t, "C14", "C14/filter-sets", "TestC14FilterSets", len(paths), vk.Pick(4*time.Minute, 10*time.Minute),
+		func(t *testing.T, i int, rep *vk.Report) {
+			p := paths[i]
+			RunBubble(t, fmt.Sprintf("p%d", i), func(t *testing.T) {
+				w := NewWorld(t, 3)
+				defer w.Close()
+				viol := func(sig, format string, a ...any) {
+					rep.Violate(vk.Violation{Sig: sig, Msg: fmt.Sprintf("%+v: ", p) + fmt.Sprintf(format, a...), Replay: p})
+				}
+				pub := w.NewClient("pub", 1, AckAll)
+				pub.Connect(ConnectOpts{ClientID: "pub", KeepAlive: 600})
+				type sub struct {
+					c      *Client
+					filter string
+					node   int
+				}
+				var subs []sub
+				wantNode := map[uint64]bool{}
+				for k, f := range p.Filters {
+					node := k%3 + 1
+					c := w.NewClient(fmt.Sprintf("sub-%d", k), node, AckAll)
+					c.Connect(ConnectOpts{ClientID: c.Name, KeepAlive: 600})
+					c.Subscribe(1, 1, f)
+					w.Step()
+					subs = append(subs, sub{c, f, node})
+					if refMatchTopic(f, "a/b") {
+						wantNode[uint64(node)] = true
+					}
+				}
+				w.Step()
+				w.mu.Lock()
+				log0 := len(w.LogEvents)
+				w.mu.Unlock()
+				pub.Publish("a/b", "m", 1, false, 9)
+				w.Idle(3 * time.Second)
+				perNode := map[uint64]int{}
+				w.mu.Lock()
+				for _, le := range w.LogEvents[log0:] {
+					if le.Payload == "m" && le.OK {
+						perNode[le.Node]++
+					}
+				}
+				w.mu.Unlock()
+				for n := uint64(1); n <= 3; n++ {
+					want := 0
+					if wantNode[n] {
+						want = 1
+					}
+					if perNode[n] != want {
+						viol("c14-filter-set-destinations", "topic a/b published on node 1: node %d's log took the message %d time(s), expected %d (filters by node: %v)", n, perNode[n], want, p.Filters)
+						return
+					}
+				}
+				if !pub.Has("PUBACK(9)") {
+					viol("c14-filter-set-not-acknowledged", "every destination stored the message, the publisher has no PUBACK; inbox %s", pub.InboxDigest())
+					return
+				}
+				for _, s := range subs {
+					got := 0
+					for _, pk := range s.c.Publishes() {
+						if string(pk.Payload) == "m" {
+							got++
+						}
+					}
+					want := 0
+					if refMatchTopic(s.filter, "a/b") {
+						want = 1
+					}
+					if got != want {
+						viol("c14-filter-set-delivery", "the subscriber of %s on node %d received the publish of a/b %d time(s), expected %d", s.filter, s.node, got, want)
+						return
+					}
+				}
+				if len(wantNode) >= 2 {
+					MarkNontrivial(fmt.Sprint(p))
+					rep.Nontrivial++
+				}
+				if i%9 == 0 {
+					rep.Sample(p)
+				}
+			})
+		},
+		func(i int) any { return paths[i] },
+		func(rep *vk.Report) {
+			rep.Rule = "every 3- and 4-element subset of 8 filters sharing levels and wildcards, spread over 3 nodes in turn; one QoS 1 publish of a/b on node 1: one successful append on every node hosting a matching filter and none elsewhere, PUBACK, one copy per matching subscription; non-trivial = sets with destinations on at least two nodes"
+			rep.Floor("sets_with_two_destination_nodes", 50, rep.Nontrivial)
+		})
+}
